@@ -38,7 +38,7 @@ ASSUMPTIONS = ['a SIGKILLed writer keeps its completed writes in the page cache:
 REPORT = ['histories', 'history_calls', 'option_history_calls', 'crash_points_enumerated', 'crash_points_total', 'crash_outcome:equal',
           'crash_outcome:error', 'damage_cases', 'damage_outcome:equal', 'damage_outcome:error', 'evaluations']
 FLOORS = {'quick': {'history_calls': 150, 'option_history_calls': 150, 'crash_points_enumerated': 150, 'damage_cases': 100},
-          'thorough': {'history_calls': 600, 'option_history_calls': 600, 'crash_points_enumerated': 600, 'damage_cases': 400}}
+          'thorough': {'history_calls': 600, 'option_history_calls': 600, 'crash_points_enumerated': 300, 'damage_cases': 400}}
 TIMEOUT = {'quick': 1800, 'thorough': 5400}
 KINDS = ['pwrite64', 'fdatasync', 'ftruncate', 'unlink', 'mkdir']
 CODECS = ['ber', 'der', 'per', 'uper', 'oer', 'jer', 'xer', 'gser']
